@@ -87,3 +87,14 @@ func TestKnownLtrimBelowMinusLen(t *testing.T) {
 		})
 	})
 }
+
+func TestKnownNegativeZeroScoreSign(t *testing.T) {
+	known.Probe(t, "C08-negative-zero-score-sign", func() (bool, string) {
+		return script("pebble", []step{
+			{[]string{"zadd", "default:t:z", "-0", "m"}, ":1"},
+			{[]string{"zscore", "default:t:z", "m"}, `"-0"`},
+			{[]string{"zrange", "default:t:z", "0", "-1", "withscores"}, `["m" "-0"]`},
+			{[]string{"zincrby", "default:t:z", "-0", "q"}, `"-0"`},
+		})
+	})
+}
